@@ -259,6 +259,7 @@ public:
         if (dims == _view.dimensions() && _align_in_bytes == alignment)
             return;
 
+        std::size_t const old_alignment = _align_in_bytes;
         _align_in_bytes = alignment;
 
         if (_allocated_bytes >= total_allocated_size_in_bytes(dims))
@@ -270,8 +271,9 @@ public:
         }
         else
         {
-            image tmp(dims, alignment, _alloc); // allocate from this image's allocator, not from Alloc()
-            swap(tmp);
+            // the new alignment takes effect only if the allocation succeeds
+            try { image tmp(dims, alignment, _alloc); swap(tmp); } // allocate from this image's allocator, not from Alloc()
+            catch (...) { _align_in_bytes = old_alignment; throw; }
         }
     }
 
@@ -285,6 +287,7 @@ public:
         if (dims == _view.dimensions() && _align_in_bytes == alignment)
             return;
 
+        std::size_t const old_alignment = _align_in_bytes;
         _align_in_bytes = alignment;
 
         if (_allocated_bytes >= total_allocated_size_in_bytes(dims))
@@ -296,8 +299,9 @@ public:
         }
         else
         {
-            image tmp(dims, p_in, alignment, _alloc); // allocate from this image's allocator, not from Alloc()
-            swap(tmp);
+            // the new alignment takes effect only if the allocation succeeds
+            try { image tmp(dims, p_in, alignment, _alloc); swap(tmp); } // allocate from this image's allocator, not from Alloc()
+            catch (...) { _align_in_bytes = old_alignment; throw; }
         }
     }
 
@@ -312,6 +316,7 @@ public:
         if (dims == _view.dimensions() && _align_in_bytes == alignment && alloc_in == _alloc)
             return;
 
+        std::size_t const old_alignment = _align_in_bytes;
         _align_in_bytes = alignment;
 
         if (_allocated_bytes >= total_allocated_size_in_bytes(dims))
@@ -323,8 +328,9 @@ public:
         }
         else
         {
-            image tmp(dims, alignment, alloc_in);
-            swap(tmp);
+            // the new alignment takes effect only if the allocation succeeds
+            try { image tmp(dims, alignment, alloc_in); swap(tmp); }
+            catch (...) { _align_in_bytes = old_alignment; throw; }
         }
     }
 
@@ -338,6 +344,7 @@ public:
         if (dims == _view.dimensions() && _align_in_bytes == alignment && alloc_in == _alloc)
             return;
 
+        std::size_t const old_alignment = _align_in_bytes;
         _align_in_bytes = alignment;
 
         if (_allocated_bytes >= total_allocated_size_in_bytes(dims))
@@ -349,8 +356,9 @@ public:
         }
         else
         {
-            image tmp(dims, p_in, alignment, alloc_in);
-            swap(tmp);
+            // the new alignment takes effect only if the allocation succeeds
+            try { image tmp(dims, p_in, alignment, alloc_in); swap(tmp); }
+            catch (...) { _align_in_bytes = old_alignment; throw; }
         }
     }
 
